@@ -929,6 +929,49 @@ func c07Foreign(c *fw.Ctx, idx int) {
 		}
 		c.Distinct(fmt.Sprintf("foreign/%d/%d/%v/%s", sp.geomState, sp.propState, sp.bbox, sp.idLit))
 	}
+	// geometry collections: one with complete members, then members that leave
+	// "coordinates" out (empty geometries of their type) or "type" (an error)
+	full := fmt.Sprintf(`{"type":"GeometryCollection","geometries":[{"type":"Point","coordinates":[%d,8]},{"type":"LineString","coordinates":[[1,2],[3,%d]]},{"type":"Polygon","coordinates":[[[0,0],[4,0],[4,4],[0,0]]]}]}`, r.Range(1, 99), r.Range(1, 99))
+	bare := `{"geometries":[{"type":"Point"},{"type":"LineString"},{"type":"Polygon"},{"type":"MultiPoint"}],"type":"GeometryCollection"}`
+	untyped := `{"type":"GeometryCollection","geometries":[{"coordinates":[1,2]}]}`
+	var g1, g2, g3 geom.T
+	var e1, e2, e3 error
+	c.SetInput(map[string]any{"json": full + "  then  " + bare + "  then  " + untyped})
+	if c.Guard("panic", func() {
+		e1 = geojson.Unmarshal([]byte(full), &g1)
+		e2 = geojson.Unmarshal([]byte(bare), &g2)
+		e3 = geojson.Unmarshal([]byte(untyped), &g3)
+	}) {
+		return
+	}
+	c.Eval(3)
+	c.Count("collections_with_members_missing_keys")
+	if e1 != nil || e2 != nil {
+		c.Fail("foreign-document", "valid GeometryCollection documents were rejected: %v / %v", e1, e2)
+		return
+	}
+	if e3 == nil {
+		c.Fail("foreign-document", "a GeometryCollection member without \"type\" was accepted (after a collection with complete members had been decoded): %v", g3)
+		return
+	}
+	gc, ok := g2.(*geom.GeometryCollection)
+	if !ok || gc.NumGeoms() != 4 {
+		c.Fail("foreign-document", "collection of four members without coordinates decodes as %T", g2)
+		return
+	}
+	for i, m := range gc.Geoms() {
+		if m == nil || isNilGeom(m) || len(m.FlatCoords()) != 0 {
+			c.Fail("foreign-document", "member %d of %s has no coordinates in the document but decodes as %T with ordinates %v (a collection with complete members had been decoded before)", i, bare, m, flatOf(m))
+			return
+		}
+	}
+}
+
+func flatOf(t geom.T) []float64 {
+	if t == nil || isNilGeom(t) {
+		return nil
+	}
+	return t.FlatCoords()
 }
 
 // c07EveryLength: a line string, a multipoint and a polygon ring of exactly idx
